@@ -28,7 +28,7 @@ REQUIRED = ['keeps_direct_seats', 'house_grows_by_adj', 'house_grows_by_adj_of_f
             'level_cty_final_party_totals', 'partyVotes_ok', 'level_cty_refuses_tie', 'level_cty_ok_no_tie',
             'level_cty_tie_witness', 'level_cty_terminates', 'level_cty_floors_cover_direct_seats',
             'level_cty_final_is_proportional', 'distGet_entry', 'level_final_is_proportional_tie',
-            'final_zero_votes_witness', 'level_final_is_proportional_lr_tie']
+            'final_zero_votes_witness', 'level_final_is_proportional_lr_tie', 'level_flat_tie_witness']
 NAME_MODES = ['str', 'int0', 'empty0', 'person', 'tuple']
 REQUIRED_COUNTERS = ['overhang_present', 'no_overhang', 'party_outside_tier', 'party_without_votes',
                      'levelling_iterations_ge2', 'by_constituency', 'multistage_wrapped',
@@ -41,7 +41,7 @@ REQUIRED_COUNTERS = ['overhang_present', 'no_overhang', 'party_outside_tier', 'p
                      'house_0', 'house_1', 'house_below_direct', 'many_wasted_votes', 'multistage_3stages',
                      'multistage_3stages_depth2', 'allocator_default', 'apportioner_int',
                      'cty_tie_in_constituency', 'cty_tie_floor_unreachable', 'lower_ratio_tier_party', 'lower_ratio_sl',
-                     'lower_ratio_lr']
+                     'lower_ratio_lr', 'flat_tie_floor', 'flat_tie_floor_never_recurs']
 RULE = ('second-vote dicts over 2-6 parties: tie-forcing small sets, zero-vote parties (also two or more, also all), ints up to '
         '10^30 incl. 2^53+-1 and near ties (v, v+1), Fractions, every value as a Fraction object (12 %), exact ties at the '
         'levelling boundary scaled to 10^18 / 10^30 / thirds / sevenths and between parties with different votes a*K, b*K; '
@@ -93,14 +93,13 @@ UNPROVED = [
     'final totals = proportional distribution when nobody / not everybody has votes: the highest-averages theorems need '
     'positive votes for every party (final_zero_votes_witness shows the clause failing when nobody has votes); with '
     'ties in the enlarged house both evaluators are proved (level_final_is_proportional_tie, _lr_tie)',
-    'termination of the FLAT LevelOverhang when the baseline result contains a Tie key: no diverging input exists in '
-    'the exhaustive scopes ({1..7}^<=3, {1..5}^4, houses <= 7, three evaluators) and there is an informal argument '
-    '(a tie group of rational quotients recurs with the same members at infinitely many levels q/k, Hare remainders are '
-    'periodic in the house size), not formalised: level_terminates_of_adequate reduces it to one adequate house size and '
-    'the fuel hypothesis stays there.  The by-constituency variant DID diverge on tie floors (finding '
-    'C15-by-constituency-tie-floor-nontermination); with the repair ties are refused (level_cty_refuses_tie) and '
-    'level_cty_terminates proves termination for tie-free floors of parties with votes; the link "no tie in any '
-    'constituency result => every floor key is a party with positive nationwide votes" is a decidable hypothesis there',
+    'termination of the FLAT LevelOverhang when the baseline result contains a Tie key is NOT a theorem: with a modified '
+    'first divisor it diverges (open finding C15-flat-tie-floor-nontermination, level_flat_tie_witness: 40 enlargements '
+    'checked in Lean, 20000 in Python, plus the argument that the tie never recurs).  For D\'Hondt, plain Sainte-Lague '
+    'and Hare-LR no diverging input exists among all vote vectors {1..9}^<=3, houses <= 8 (158636 tied baselines) and '
+    'there is an informal recurrence argument, but no proof: level_terminates (no Tie key) and '
+    'level_terminates_of_adequate (one adequate house size given) are what is proved; the fuel hypothesis stays.  By '
+    'constituency ties are refused (level_cty_refuses_tie) and level_cty_terminates covers tie-free floors',
 ]
 EXHAUSTIVE = {'thorough': True}
 NAMES = Names(prefix='p')
@@ -564,6 +563,11 @@ def _adj_clauses(case, adj, votes, direct):
     if isinstance(adj, dict):
         if adj.get('err') == 'FuelExhausted' and case['kind'] == 'level' and info.get('least') is None:
             info['fuel_exhausted'] = True
+            if any(isinstance(k, tuple) for k in info.get('floors', {})):
+                # the property promises a reported adjustment; with a floor on a Tie object the loop need not end
+                # (the tie has to recur with the same members), so an exhausted bound is not excused here
+                return [('level_does_not_terminate_tie_floor',
+                         f'no adjustment after {case["fuel"]} enlargements; floors {info["floors"]}')], info
             return [], info
         return [('unexpected_error:' + str(adj.get('err')), str(adj))], info
     if not isinstance(adj, int) or adj < 0:
@@ -1158,6 +1162,44 @@ def _directed_intermediate_tie(rng, count):
     return out
 
 
+def _directed_flat_tie_floor(rng, count):
+    """flat LevelOverhang with a Tie key in the baseline AND overhang: the loop only ends when the same tie recurs.
+    Includes the shape that never recurs: modified Sainte-Lague (first divisor 7/5), two parties with a votes each tied on
+    their FIRST quotient and a third with 3a votes in overhang - at every later level of the two the third one joins
+    the tie (3a/(6j+3) = a/(2j+1)), so Tie({A, B}) is never reported again."""
+    out = []
+    for a in (1, 2, 5, 10 ** 6):
+        for extra in (0, 1):
+            c = _level_case(rng.choice(['overhang_calc', 'adjusted_eval']), 'sainte_lague_mod', [a, a, 3 * a], 3,
+                            [0, 0, 3 + extra], tags=['directed', 'flat_tie_floor_never_recurs'])
+            out.append(_finish_flat(rng, c, wrap='none'))
+    tries = 0
+    while len(out) < count and tries < 60 * count:
+        tries += 1
+        ev = rng.choice(ALL_EVALS)
+        m = rng.randint(3, 4)
+        b = rng.choice([1, 2, 3])
+        vs = [b * rng.randint(1, 3)] * 2 + [b * rng.randint(2, 9) for _ in range(m - 2)]
+        n = rng.randint(2, 7)
+        try:
+            base = _bb(ev, {NAMES.n(i): v for i, v in enumerate(vs)}, n)
+        except _Refused:
+            continue
+        if not any(isinstance(k, tuple) for k in base):
+            continue
+        tierp = [k for k in base if not isinstance(k, tuple)]
+        if not tierp:
+            continue
+        j = rng.choice(tierp)
+        d = [0] * m
+        d[j] = base[j] + rng.randint(1, 2)
+        if sum(d) > n:
+            continue
+        c = _level_case(rng.choice(['overhang_calc', 'adjusted_eval']), ev, vs, n, d, tags=['directed', 'flat_tie_floor'])
+        out.append(_finish_flat(rng, c, wrap='none'))
+    return out
+
+
 def _directed_lower_ratio(rng, count):
     """a party in overhang next to a SECOND tier party that has fewer votes per seat of its minimum, yet reaches its
     minimum earlier (or has it already): the house size is decided by the party in overhang, not by the party with the
@@ -1522,6 +1564,7 @@ def generate(rng, tier):
     cases += _directed_intermediate_tie(rng, 30 if tier == 'quick' else 300)
     cases += _directed_alabama(rng, 30 if tier == 'quick' else 300)
     cases += _directed_lower_ratio(rng, 48 if tier == 'quick' else 400)
+    cases += _directed_flat_tie_floor(rng, 30 if tier == 'quick' else 200)
     k = 36 if tier == 'quick' else 300
     cases += _directed_scaled_ties(rng, k)
     cases += _directed_cross_ties(rng, 2 * k)
@@ -1647,6 +1690,8 @@ def describe(case):
 def signature(case, clause):
     if clause == 'level_floor_unmet_at_zero_with_party_outside_tier':
         return 'level:floor_unmet_at_zero_with_party_outside_tier'
+    if clause == 'level_does_not_terminate_tie_floor':
+        return 'level:does_not_terminate_tie_floor'
     if (clause == 'level_cty_floor_ignores_direct_seats_without_local_share'
             or clause == 'house_size_after_ignored_direct_seats'
             or clause.startswith('final_stage_error_after_ignored_direct_seats:')):
